@@ -26,19 +26,19 @@ RULES = {
 
 # (profile, opts) per tier and the finding kinds each property owns
 COMMON_DEATH = {"crash", "fuel"}
-MIX = ("mix", {"long_inputs": True, "unicode_heavy": True, "ws_inject": True}, 0.6)
+MIX = ("mix", {"long_inputs": True, "unicode_heavy": True, "ws_inject": True, "huge_inputs": True}, 0.6)
 SUITE = ("suite", {}, 1.0)  # the repository's own grammars (test suite + grammar.ebnf), read by the real front end
-MIXT = ("mix", {"long_inputs": True, "unicode_heavy": True, "ws_inject": True}, 1.0)
+MIXT = ("mix", {"long_inputs": True, "unicode_heavy": True, "ws_inject": True, "huge_inputs": True}, 1.0)
 CONF = {
     "C01": dict(kinds={"accept", "consumed", "fn"} | COMMON_DEATH,
-                quick=[("core", {}, 0.8), ("unicode", {"unicode_heavy": True}, 0.4), MIX, SUITE], thorough=[("core", {}, 1.0), ("errors", {}, 0.5), ("fields", {}, 0.5), ("unicode", {"unicode_heavy": True}, 0.5), MIXT, SUITE]),
+                quick=[("core", {"huge_inputs": True}, 0.8), ("unicode", {"unicode_heavy": True}, 0.4), MIX, SUITE], thorough=[("core", {"huge_inputs": True}, 1.0), ("errors", {}, 0.5), ("fields", {}, 0.5), ("unicode", {"unicode_heavy": True}, 0.5), MIXT, SUITE]),
     "C02": dict(kinds={"tree", "substring"},
                 quick=[("fields", {}, 0.6), ("dupfields", {}, 0.6), ("userfn", {}, 0.4), MIX, SUITE], thorough=[("fields", {}, 1.0), ("dupfields", {}, 1.0), ("core", {}, 1.0), ("include", {}, 0.3), ("userfn", {}, 0.5), ("unicode", {"unicode_heavy": True}, 0.3), MIXT, SUITE]),
     "C04": dict(kinds={"panic", "crash", "boundary", "substring"},
                 quick=[("unicode", {"unicode_heavy": True}, 1.0), MIX], thorough=[("unicode", {"unicode_heavy": True}, 1.0), ("userfn", {"unicode_heavy": True}, 0.3), MIXT]),
     "C05": dict(kinds={"accept", "consumed", "tree", "variant"} | COMMON_DEATH,
-                quick=[("memo", {"memo_variants": True, "grammar_scale": 0.4, "long_inputs": True}, 1.0), ("userfn", {"memo_variants": True, "grammar_scale": 0.2}, 1.0), ("memofam", {"memo_variants": True}, 1.0)],
-                thorough=[("memo", {"memo_variants": True, "grammar_scale": 0.4, "long_inputs": True}, 1.0), ("userfn", {"memo_variants": True, "grammar_scale": 0.15}, 1.0), ("memofam", {"memo_variants": True}, 1.0)]),
+                quick=[("memo", {"memo_variants": True, "grammar_scale": 0.4, "long_inputs": True, "huge_inputs": True, "huge_every": 3}, 1.0), ("userfn", {"memo_variants": True, "grammar_scale": 0.2}, 1.0), ("memofam", {"memo_variants": True}, 1.0)],
+                thorough=[("memo", {"memo_variants": True, "grammar_scale": 0.4, "long_inputs": True, "huge_inputs": True, "huge_every": 3}, 1.0), ("userfn", {"memo_variants": True, "grammar_scale": 0.15}, 1.0), ("memofam", {"memo_variants": True}, 1.0)]),
     "C06": dict(kinds={"memo_bound"},
                 quick=[("memofail", {}, 1.0), ("leftrec", {}, 0.4), MIX], thorough=[("memofail", {}, 1.0), ("memo", {}, 0.5), ("leftrec", {}, 0.5), MIXT]),
     "C07": dict(kinds={"accept", "consumed", "tree", "position", "fn"} | COMMON_DEATH,
@@ -46,7 +46,7 @@ CONF = {
     "C08": dict(kinds={"accept", "consumed", "tree", "fn", "position"},
                 quick=[("ws", {"ws_inject": True}, 1.0), MIX, SUITE], thorough=[("ws", {"ws_inject": True}, 1.0), ("include", {"ws_inject": True}, 0.3), MIXT, SUITE]),
     "C09": dict(kinds={"position", "boundary", "stringpos"},
-                quick=[("position", {}, 1.0), MIX, SUITE], thorough=[("position", {}, 1.0), ("ws", {"ws_inject": True}, 0.3), MIXT, SUITE]),
+                quick=[("position", {"huge_inputs": True, "unicode_heavy": True}, 1.0), MIX, SUITE], thorough=[("position", {"huge_inputs": True, "unicode_heavy": True}, 1.0), ("ws", {"ws_inject": True}, 0.3), MIXT, SUITE]),
     "C10": dict(kinds={"errpos", "errpos_far", "errspec", "errspec_sentinel"},
                 quick=[("errors", {}, 0.8), ("leftrec", {}, 0.3), MIX, SUITE], thorough=[("errors", {}, 1.0), ("core", {}, 1.0), ("leftrec", {}, 0.5), ("memo", {}, 0.3), MIXT, SUITE]),
     "C13": dict(kinds={"variant", "accept", "tree", "position"},
@@ -209,8 +209,8 @@ def check_C06(tier, seed):
         byinput = {c["input"]: c for c in u["cases"]}
         for c in u["cases"]:
             evals = c["facts"].get("memo_body_evals")
-            if evals is None:
-                continue
+            if evals is None or u["base"] % families.NFAM >= 7:
+                continue  # family 7 (memoized wrappers) has a left-recursive and an unmemoized rule: per-pair bound only
             agg_checked += 1
             bound = nmemo * (c["len"] + 1)
             if evals > bound:
@@ -228,7 +228,7 @@ def check_C06(tier, seed):
     out.coverage["memo_pairs_observed"] = pairs
     for smp in s["samples"][:2]:
         out.samples.append(smp)
-    rule = RULES["C06"] + " evaluations = (memoized rule, entry offset) pairs observed; plus 5 hand-built fully memoized families (nested brackets with 3-4 alternatives sharing a prefix, right-recursive expressions, lookahead-then-match, failing @check, lists) with failing inputs up to depth 24: aggregate bound rules x (len+1) and at-most-linear growth of the logical step count."
+    rule = RULES["C06"] + " evaluations = (memoized rule, entry offset) pairs observed; plus 8 hand-built memoized families (nested brackets with 3-4 alternatives sharing a prefix, right-recursive expressions, lookahead-then-match, failing @check, lists, long inputs, memoized wrappers around cached rules) with failing inputs up to depth 24: aggregate bound rules x (len+1) and at-most-linear growth of the logical step count."
     return out.finish(pairs, reentered, rule, floor=floor)
 
 
